@@ -389,6 +389,8 @@ pub fn dct_decode(data: &[u8], _params: &DCTDecodeParams) -> Result<Vec<u8>> {
     use jpeg_decoder::Decoder;
     let mut decoder = Decoder::new(data);
     let pixels = decoder.decode()?;
+    #[cfg(feature = "verif_hooks")]
+    crate::verif::note_decoded(pixels.len());
     Ok(pixels)
 }
 
@@ -445,6 +447,8 @@ pub fn fax_decode(data: &[u8], params: &CCITTFaxDecodeParams) -> Result<Vec<u8>>
             if buf.len() - before != columns {
                 bad_line = true;
             }
+            #[cfg(feature = "verif_hooks")]
+            crate::verif::note_decoded(columns);
         }).ok_or(PdfError::Other { msg: "faxdecode failed".into() })?;
         if bad_line || buf.len() % columns != 0 {
             bail!("faxdecode produced a line that is not {} pixels wide", columns);
